@@ -456,6 +456,11 @@ let main_c15 file full =
                          let rootgrow = match more2 with g :: _ -> int_of_string g | [] -> 0 in
                          if int_of_string used <> ffb then add (Printf.sprintf "fill:allocated=%s of %d" used ffb);
                          if int_of_string freeafter + rootgrow <> ffb then add (Printf.sprintf "fill:free-after-delete=%s+%d of %d" freeafter rootgrow ffb);
+                         (match more2 with
+                          | _ :: diskfree :: restartfree :: _ ->
+                            if int_of_string diskfree + rootgrow <> ffb then add (Printf.sprintf "fill:free-on-disk-after-delete=%s+%d of %d" diskfree rootgrow ffb);
+                            if int_of_string restartfree + rootgrow <> ffb then add (Printf.sprintf "fill:free-after-restart=%s+%d of %d" restartfree rootgrow ffb)
+                          | _ -> ());
                          ignore freed
                        | _ -> ())
                     | [] -> ())
